@@ -217,7 +217,7 @@ func histShard(nShards int) func(name string, r *vlib.Report) {
 		alpha := alphabetFor(c, tab, cfg.Thorough())
 		deadline := cfg.Deadline()
 		if cfg.Thorough() { // time box per shard: the history engine's share of the budget, 16 shards at a time
-			per := 12 * time.Minute * 16 / time.Duration(nShards)
+			per := 8 * time.Minute * 16 / time.Duration(nShards) // nShards = shards of the enabled lanes (the disabled ones are small)
 			if per < 20*time.Second {
 				per = 20 * time.Second
 			}
@@ -375,8 +375,14 @@ func main() {
 	}
 
 	hs := histShards(cfg)
+	enabledShards := 0
+	for _, n := range hs {
+		if !strings.HasPrefix(n, "hist|dis:") {
+			enabledShards++
+		}
+	}
 	if strings.HasPrefix(cfg.Shard, "hist|") {
-		vlib.RunShards(r, nil, histShard(len(hs))) // worker mode: runs the shard and exits
+		vlib.RunShards(r, nil, histShard(enabledShards)) // worker mode: runs the shard and exits
 	}
 	if cfg.Shard == "" { // parent process: history engine and wrappers first, then the schedule shards
 		r.Assume("the CPU answer is injected per Allow through load.systemOverloadChecker; stat.CpuUsage() (overload factor) is real and bracketed in [0.1,1]; shedders are built WithCpuThreshold(999) so that the factor is 1 for every usage value core/stat can report")
@@ -384,7 +390,7 @@ func main() {
 		r.Assume("core/syncx/spinlock.go is replaced (overlay only) by a blocking-lock model of the same API: spin-waiting is stutter-equivalent to blocking; with the mechanically rewritten spin loop the bounded schedule search does not terminate (free Yield alternatives)")
 		start := time.Now()
 		histPrepass(cfg, r)
-		vlib.RunShards(r, hs, histShard(len(hs)))
+		vlib.RunShards(r, hs, histShard(enabledShards))
 		for _, p := range plans(cfg) {
 			r.AddStates(1) // the empty history: one root state per lane
 			pre := "hist/" + p.lane() + "/"
